@@ -9,7 +9,7 @@ TECHNIQUE = ("untrusted-integer range checker (interprocedural taint with domina
              "recursion census, and a reviewed census of every explicit unwrap/expect/assert!/panic!/unreachable! in the parser scope")
 EXPLANATION = ("Over every function of the parser crates/modules (about 2400 MIR bodies; list in props/_c06_scope.py) the check decides: (1) no integer decoded from "
                "input (from_be_bytes, btoi, var-ints, ...; through returns, tuple fields, containers and closure captures) reaches a slice index/split or an allocation size "
-               "without a dominating ordering comparison or checked access; (2) indexing [0]/[len-1] after the same function shrank the collection needs an emptiness test in "
+               "without a dominating ordering comparison or checked access (for the pkt-line reader the guard's constant is additionally checked against the buffer size); (2) indexing [0]/[len-1] after the same function shrank the collection needs an emptiness test in "
                "between; next().unwrap() needs a dominating peek() or the split-family first-item guarantee; unwrapped slice->array conversions need constant-length "
                "provenance (split_at(N), [..N], chunks_exact(N)); unwrapped usize->u32 narrowing of input lengths and `len() - x` need a dominating comparison; (3) every loop "
                "that is not a `for` makes progress on every path, self-recursion is depth-bounded or consumes input (listed); (4) every other explicit unwrap/expect and every "
@@ -67,6 +67,10 @@ def run(db, chk):
         chk.ob("decoded-integer-bounded-before-use", "%s %s" % (f["fn"], f["sink"]), False, "value from %s reaches %s with no dominating bound" % (f["source"], f["sink"]),
                "%s:%d" % (f["file"], f["line"]), key=f["key"])
     chk.ob("decoded-integer-bounded-before-use", "all other sinks (%d)" % (u.stats["sinks_seen"] - len(fs)), True)
+    # a guard with the wrong constant is still a guard to URC: for the pkt-line reader the constant is checked against the buffer size (rule shared with C29)
+    from props import C29
+    for crate in ("gix_packetline", "gix_packetline_blocking"):
+        C29.payload_bound_rule(db, chk, crate)
 
     # (2) UNW rules
     unwraps = load_table("c06_unwraps.json")
